@@ -1,5 +1,6 @@
 import ScnrVerif.Proofs.Equiv
 import ScnrVerif.Proofs.CompileCorrect
+import ScnrVerif.Proofs.Agree
 /-!
 # C02 — the compiled automaton accepts exactly the pattern languages, for every string
 
@@ -124,6 +125,21 @@ theorem compiler_model_correct (ps : List (Nat × CAst)) (cm : Nat → Nat → B
 theorem lookahead_model_correct (a : CAst) (cm : Nat → Nat → Bool) (w : List Nat) (t : Nat) :
     acceptsTid (minimize (compileLaPre a)) cm w t ↔ w ≠ [] ∧ t = 0 ∧ Matches cm a.toRe w :=
   compileLa_correct a cm w t
+
+/-- **track A as a decision procedure** (executed by the driver on every compiled mode): equality of
+    the real automaton with the model's and leaf-wise agreement of the patterns decide C02 for that
+    mode, for every word, with no exploration bound -/
+theorem decided_by_compiler_theorem (T R : List (List (Nat × Nat))) (A : Dfa) (ps : List (Nat × CAst))
+    (rs : List (Nat × Ast)) (hA : A = compileMode ps) (hag : agreePats T R ps rs = true) (w : List Nat) (t : Nat) :
+    acceptsTid A (cmT T) w t ↔
+      w ≠ [] ∧ ∃ r, (t, r) ∈ rs.map (fun p => (p.1, p.2.desugar)) ∧ Matches (cmT R) r w :=
+  trackA_decides T R A ps rs hA hag w t
+
+theorem lookahead_decided_by_compiler_theorem (T R : List (List (Nat × Nat))) (A : Dfa) (a : CAst) (r : Ast)
+    (ht : A.trans = (minimize (compileLaPre a)).trans) (he : A.ends = (minimize (compileLaPre a)).ends)
+    (hag : agree T R a r = true) (w : List Nat) (t : Nat) :
+    acceptsTid A (cmT T) w t ↔ w ≠ [] ∧ t = 0 ∧ Matches (cmT R) r.desugar w :=
+  trackA_decides_la T R A a r ht he hag w t
 
 /-- the empty string is never accepted by the model's automata -/
 theorem model_rejects_empty (ps : List (Nat × CAst)) (cm : Nat → Nat → Bool) (tid : Nat) :
